@@ -145,6 +145,21 @@ def finish(run, args):
                 continue
         undecided.append((name, reason))
 
+    # code outside the verified subset (only ever on a changed tree: the reference tree has no such fault): the contracts
+    # cannot speak about it, so nothing is proved or refuted by the verifier; the property's native replay battery is run
+    # on the real code as a labelled stand-in, and only an input that actually fails there is reported
+    if run.unsupported and not violations:
+        h = getattr(mod, "REPLAY", {}).get("*")
+        if h:
+            res = native(h, dict(seed=run.seed), timeout=600)
+            if res.get("violates") and not res.get("timed_out"):
+                name = "outside-verified-subset::" + safe(run.unsupported[0])[:100]
+                payload = dict(property=pid, obligation=name, tree=repo_root(), harness=h, inputs=dict(seed=run.seed), native=res,
+                               solver=dict(verdict="n/a", reason="function outside the verified subset (%s); the property's native "
+                                           "battery fails on this tree" % "; ".join(run.unsupported)[:400]))
+                path = write_replay(pid, name, payload)
+                violations.append((name, path, True))
+
     # bounded stand-ins (never counted as discharged obligations): native checks of assumed contracts
     bounded_runs = []
     for h, what in getattr(mod, "BOUNDED", []):
